@@ -834,7 +834,8 @@ pub fn select_a(f: &Factors, want: usize, v: Verbosity) -> Vec<Uint> {
         }
         // A is smaller than sqrt(n) so 256-bit arithmetic is enough.
         let mut product = U256::one();
-        let mut mask = 0u64;
+        // There are 4 * nfacs candidate factors: more than 64 for large inputs.
+        let mut mask = 0u128;
         while mask.count_ones() < f.nfacs as u32 - 1 {
             let g = gen();
             if mask & (1 << g) == 0 {
